@@ -39,7 +39,16 @@ def bounded_c02(tier, seed):
     return guarded(p, lambda part, t, s: run_hprog(part, t, s, judge_lines, ("L", "BL")), tier, seed)
 
 
-BOUNDED = [bounded_c02]
+def bounded_stdlib(tier, seed):
+    from . import hstd
+    p = Part("C02", "stdlib-corpus", [f"{TRC}:ExecutionTracer.track_line_visit", f"{TRC}:SubjectProperties.register_line",
+                                      "pynguin.instrumentation.version.python3_12:LineCoverageInstrumentation"],
+             scope=hstd.SCOPE_TEXT + "; sys.monitoring LINE events of the uninstrumented copy against the reported lines of the "
+                   "instrumented copy, under {LINE} and {BRANCH, LINE}", bound="the listed modules and calls")
+    return guarded(p, lambda part, t, s: hstd.run_corpus(part, t, s, "C02", "c02", "judge_lines", ("L", "BL")), tier, seed)
+
+
+BOUNDED = [bounded_c02, bounded_stdlib]
 META = {"level": "other", "explanation": "bounded differential contract check: the interpreter's own LINE events are the oracle",
         "rule": "one case per (function, argument vector, metric set)"}
 
